@@ -41,7 +41,7 @@ class Gen:
     """Generates a script step by step against a live implementation world, so that most calls
     are valid; `bad` is the probability of drawing from the malformed stream."""
 
-    def __init__(self, rnd, pool='mix', bad=0.2, ops=None, snap=True, var='a', after=(), before=(), twin=None, max_points=None):
+    def __init__(self, rnd, pool='mix', bad=0.2, ops=None, snap=True, var='a', after=(), before=(), twin=None, max_points=None, pad=0, quiet=0.0):
         self.rnd = rnd; self.pool = POOLS[pool]; self.bad = bad; self.snap = snap
         self.after = list(after); self.before = list(before); self.twin = twin; self.max_points = max_points
         self.w = impl.ImplWorld()
@@ -50,12 +50,58 @@ class Gen:
         self.ops = ops or dict(point=3, faces=4, basis=4, delete=2, restrict=1, subdiv=1, relabel1=1,
                                relabel=1, addfrom=1, delb=0.5, dels=0.5, ensure=0.3, dupfaces=0.7, dupbasis=0.5)
         self.stats = {}
+        self.quiet = quiet; self.quiet_left = 0
         self.emit('new ' + var, snap=False)
         if twin:
             self.emit('new ' + twin, snap=False)
+        if pad:
+            self.padding(pad)
+
+    def padding(self, n):
+        """a block of n points (int and str names side by side), all edges among the first 9 of them
+        (36: more than any small-size threshold) with generated, int and str names in one order, and a
+        few triangles -- so that the history runs on a complex of 50+ simplices"""
+        v = self.var; no_auto = bool(self.twin)
+        pts = [900 + i if i % 2 == 0 else 'P%d' % i for i in range(n)]
+        def put(line):
+            if self.twin:
+                t = line.split(); line = ' '.join(['both', t[1], self.twin, t[0]] + t[2:])
+            self.lines.append(line); self.w.exec(line)
+        for p in pts:
+            put('add %s [ ] %s -' % (v, tok(p)))
+        k = 0; core = pts[:9]
+        for i in range(len(core)):
+            for j in range(i + 1, len(core)):
+                k += 1
+                nm = tok(950 + k) if k % 3 == 0 else (tok('E%d' % k) if (k % 3 == 1 or no_auto) else '-')
+                put('add %s [ %s %s ] %s -' % (v, tok(core[i]), tok(core[j]), nm))
+        c = self.c()
+        for (a, b, d) in [(0, 1, 2), (0, 1, 3), (2, 3, 4), (5, 6, 7)]:
+            bs = [core[a], core[b], core[d]]
+            if no_auto:
+                fs = [c.simplexWithBasis([x for x in bs if x is not y]) for y in bs]
+                put('add %s %s %s -' % (v, list_s(fs), tok('T%d%d%d' % (a, b, d))))
+            else:
+                put('addb %s %s - -' % (v, list_s(bs)))
+        self.stats['padded'] = self.stats.get('padded', 0) + 1
 
     def emit(self, line, snap=None):
         main = (snap is None)
+        if main and self.quiet_left > 0:
+            # a quiet step: the request goes out with nothing looking at the complex before or after it
+            # (state that only a later query would repair stays as the request left it)
+            self.quiet_left -= 1
+            self.stats['quiet_steps'] = self.stats.get('quiet_steps', 0) + 1
+            if self.twin and not getattr(self, 'no_twin', False):
+                t = line.split(); xl = ' '.join(['both', t[1], self.twin, t[0]] + t[2:])
+            else:
+                xl = line
+            self.lines.append('echo --'); self.lines.append(xl)
+            o = self.w.exec(xl)[1]
+            kw = line.split()[0]; self.stats[kw] = self.stats.get(kw, 0) + 1
+            if o and o[0].startswith('err'):
+                self.stats['rejected'] = self.stats.get('rejected', 0) + 1
+            return o
         if main:
             self.lines.append('echo --')        # unit boundary (for the shrinker)
             for b in self.before:
@@ -100,10 +146,12 @@ class Gen:
         from harness import oracles
         if getattr(self, 'dead', False):
             return None
+        if self.quiet and self.quiet_left == 0 and self.rnd.random() < self.quiet:
+            self.quiet_left = self.rnd.randint(1, 3)
         for attempt in range(8):
             self.no_twin = False
             try:
-                line = self.draw()
+                line = self.forced.pop(0) if getattr(self, 'forced', None) else self.draw()
             except Exception as e:
                 # the implementation raised on a read-only query while the next request was being
                 # chosen: stop extending this script (executing it will show the broken state)
@@ -278,6 +326,16 @@ class Gen:
         if op == 'relabel1':
             s = self.some_simplex() if rnd.random() < 0.9 else rnd.choice(self.pool)
             q = rnd.choice([x for x in self.pool if x not in c] or self.pool) if not bad else self.some_simplex()
+            if not bad and not self.twin and any(type(x) is str for x in self.pool) and rnd.random() < 0.3 and s in c:
+                # a name of the shape the library generates, a little AHEAD of what it has handed out so far:
+                # the next anonymous simplices of that order must steer around it
+                ahead = max([int(x.split('d')[1]) for x in c.simplices() if _is_auto(x)] + [len(c.simplices())]) + rnd.randint(0, 3)
+                q = '%dd%d' % (rnd.choice([c.orderOf(s), 0, 0, 1]), ahead)
+                if q in c:
+                    return None
+                if q.startswith('0d'):
+                    # ... and the next few requests are anonymous points, whose generated names walk up to it
+                    self.forced = ['add %s [ ] - -' % v] * rnd.randint(2, 5)
             return 'relabel1 %s %s %s' % (v, tok(s), tok(q))
         if op == 'relabel':
             ss = c.simplices()
